@@ -19,6 +19,10 @@ mod vfile;
 //#[cfg(feature = "htx")]
 mod htx;
 
+// verification hooks: layout-probe, io-trace
+#[cfg(abyssiniandb_verif)]
+pub mod verif;
+
 //#[cfg(feature = "node_cache")]
 //mod nc;
 
